@@ -75,15 +75,49 @@ func planFor(prop, tier string, scale float64) []planEntry {
 	return out
 }
 
+// locate maps a global case number to (family, index within the family). The
+// families of a plan are interleaved in proportion to their sizes (case i of a
+// family of n sits at position (i+0.5)/n of the whole), so that a run cut
+// short by its time budget has covered every family to the same fraction
+// instead of only the first ones.
 func locate(plan []planEntry, gidx int) (*Family, int) {
+	key := ""
+	total := 0
 	for _, p := range plan {
-		if gidx < p.Count {
-			return families[p.Family], gidx
-		}
-		gidx -= p.Count
+		key += fmt.Sprintf("%s:%d;", p.Family, p.Count)
+		total += p.Count
 	}
-	return nil, 0
+	if gidx < 0 || gidx >= total {
+		return nil, 0
+	}
+	ord := interleaved[key]
+	if ord == nil {
+		ord = make([]planPos, 0, total)
+		next := make([]int, len(plan))
+		for len(ord) < total {
+			best, bi := 2.0, -1
+			for fi, p := range plan {
+				if next[fi] < p.Count {
+					if k := (float64(next[fi]) + 0.5) / float64(p.Count); k < best {
+						best, bi = k, fi
+					}
+				}
+			}
+			ord = append(ord, planPos{uint8(bi), int32(next[bi])})
+			next[bi]++
+		}
+		interleaved[key] = ord
+	}
+	pp := ord[gidx]
+	return families[plan[pp.fam].Family], int(pp.idx)
 }
+
+type planPos struct {
+	fam uint8
+	idx int32
+}
+
+var interleaved = map[string][]planPos{}
 
 func TestWorker(t *testing.T) {
 	jf := os.Getenv("VERIF_JOB")
